@@ -171,6 +171,11 @@ def run(ctx):
                 ok = all(o == ("ret", "Ok") for o in outs) and outs
                 r.ob("PM1.finish-event", "Event::%s" % v, bool(ok), "returns Ok(current element)" if ok else "outcomes: %s" % (outs[:3],),
                      site=mir.Site(b, t, None) if t is not None else None, key="PM1.finish|%s" % v)
+    # character data is converted (hence UTF-8-checked) unconditionally: PM1 chardata class
+    from . import pm
+    R = pm.Roles(lib)
+    if R.ok:
+        pm.pm1_event_classes(r, R)
     # R8.6 no-root detection in the public entry points
     for body in lib.real_bodies():
         for cs in body.calls():
